@@ -17,7 +17,8 @@ RULE = ("(scripted) library size 1-60 [thorough 400], likelihood profile class {
         "evaluated row's likelihood requested exactly once in evaluation order. (end-to-end) the same with the real "
         "kernel on generated data, likelihoods taken from an independent marginal_ln_likelihood call. Non-trivial: "
         "1 < accepted < evaluated, or an effective truncation, or a shuffled order, or steered draws, or a -inf / tie "
-        "profile.")
+        "profile."
+        " Also: an additive constant on all ln-likelihoods (0, -3000, +2500, -1e5), rows with ln_prior = -inf, return_logprobs on, library objects with a previous life, and a 'large' search (16k-131k rows in 2-3 batches).")
 SHARDS = {"quick": 4, "thorough": 16}
 BUDGET = {"quick": 70, "thorough": 800}
 
